@@ -13,6 +13,7 @@
    statements parked across several ticks) covers that side by observation, not proof. *)
 From Coq Require Import List Bool String.
 From Mkdb Require Import Model.Sched Spec.SchedSpec Proofs.SchedProofs Gen.Protocol.
+From Mkdb Require Import Spec.IoSpec Proofs.IoSitesSound Gen.IoSites.
 Import ListNotations.
 Local Open Scope list_scope.
 
@@ -68,6 +69,39 @@ Proof.
   split; [exact H|exact (safe_no_write_inside _ H)].
 Qed.
 Print Assumptions C13_current_code_partial.
+
+(* ---- the classification by name behind the extracted protocols is sound for the source as it is now ----
+   Gen/IoSites.v is regenerated on every run (tools/gen_protocol/iosites.go, go/types): every use of
+   the data-file handle fileStore.file and of the log handle wal.reader, and for every function of
+   package storage the write sites it can reach through the call graph. The conditions (Spec/IoSpec.v):
+   callees extracted as CacheTouch / Mutate / ignored reach no write at all; the PageWrite and HeaderWrite
+   callees reach exactly their own write and not the log; LogAppend reaches only the log writes of
+   wal.flush; inlined callees reach only those known sites; every write site lies in a function of the
+   matching class. *)
+Theorem C13_classification_sound :
+  io_classification_ok io_sites reaches_data_write reaches_log_write classified = true.
+Proof. vm_compute. reflexivity. Qed.
+Print Assumptions C13_classification_sound.
+
+(* read declaratively: what the statement bodies (Insert, Update, MarkDeleted, Fetch, ...) can reach *)
+Theorem C13_statement_bodies_reach_no_write : forall f c,
+  In (f, c) classified -> mem c silent_classes = true ->
+  lookup f reaches_data_write = Some [] /\ lookup f reaches_log_write = Some [].
+Proof. intros f c. exact (silent_reaches_nothing _ _ _ _ f c C13_classification_sound). Qed.
+Print Assumptions C13_statement_bodies_reach_no_write.
+
+Theorem C13_every_write_site_is_classified : forall f m t,
+  In (f, m, t) io_sites -> mem m read_only_methods = false ->
+  exists c, lookup f classified = Some c /\ (c = "PageWrite" \/ c = "HeaderWrite" \/ c = "LogAppend")%string.
+Proof. intros f m t. exact (every_write_site_is_classified _ _ _ _ f m t C13_classification_sound). Qed.
+Print Assumptions C13_every_write_site_is_classified.
+
+Example C13_classification_nonvacuous :
+  lookup "RelationService.Insert"%string classified = Some "Mutate"%string /\
+  lookup "RelationService.Fetch"%string classified = Some "CacheTouch"%string /\
+  lookup "fileStore.flushPages"%string reaches_data_write = Some [header_write_site; page_write_site] /\
+  existsb (fun s => match s with (f, m, t) => String.eqb f "fileStore.update" && String.eqb m "WriteAt" && String.eqb t "data" end) io_sites = true.
+Proof. vm_compute. repeat split. Qed.
 
 (* ---- non-vacuity ---- *)
 (* a schedule in which an INSERT runs to its log append while the flusher tries to take the lock:
